@@ -31,6 +31,54 @@ use super::{AnalyzeContext, infer_cache_manager::InferCacheManager};
 
 type ResolveResult = Result<(), InferFailReason>;
 
+/// Unresolved items grouped by the reason that blocks them. The groups are visited in
+/// first-insertion order, so the outcome does not depend on the hash map's iteration order.
+#[derive(Debug, Default)]
+pub(super) struct ReasonUnResolves {
+    order: Vec<InferFailReason>,
+    map: HashMap<InferFailReason, Vec<UnResolve>>,
+}
+
+impl ReasonUnResolves {
+    fn push(&mut self, reason: InferFailReason, unresolve: UnResolve) {
+        match self.map.get_mut(&reason) {
+            Some(unresolves) => unresolves.push(unresolve),
+            None => {
+                self.order.push(reason.clone());
+                self.map.insert(reason, vec![unresolve]);
+            }
+        }
+    }
+
+    fn is_empty(&self) -> bool {
+        self.map.is_empty()
+    }
+
+    fn len(&self) -> usize {
+        self.map.len()
+    }
+
+    /// The reasons in first-insertion order.
+    pub(super) fn reasons(&self) -> Vec<InferFailReason> {
+        self.order.clone()
+    }
+
+    fn get_mut(&mut self, reason: &InferFailReason) -> Option<&mut Vec<UnResolve>> {
+        self.map.get_mut(reason)
+    }
+
+    fn remove(&mut self, reasons: &[InferFailReason]) {
+        if reasons.is_empty() {
+            return;
+        }
+        for reason in reasons {
+            self.map.remove(reason);
+        }
+        let map = &self.map;
+        self.order.retain(|reason| map.contains_key(reason));
+    }
+}
+
 pub struct UnResolveAnalysisPipeline;
 
 impl AnalysisPipeline for UnResolveAnalysisPipeline {
@@ -38,12 +86,9 @@ impl AnalysisPipeline for UnResolveAnalysisPipeline {
         let _p = Profile::cond_new("resolve analyze", context.tree_list.len() > 1);
         let mut infer_manager = std::mem::take(&mut context.infer_manager);
         infer_manager.clear();
-        let mut reason_resolve: HashMap<InferFailReason, Vec<UnResolve>> = HashMap::new();
+        let mut reason_resolve = ReasonUnResolves::default();
         for (unresolve, reason) in context.unresolves.drain(..) {
-            reason_resolve
-                .entry(reason.clone())
-                .or_default()
-                .push(unresolve);
+            reason_resolve.push(reason, unresolve);
         }
 
         let mut loop_count = 0;
@@ -71,10 +116,10 @@ impl AnalysisPipeline for UnResolveAnalysisPipeline {
 #[allow(unused)]
 fn record_unresolve_info(
     time_hash_map: HashMap<usize, (u128, usize)>,
-    reason_unresolves: &HashMap<InferFailReason, Vec<UnResolve>>,
+    reason_unresolves: &ReasonUnResolves,
 ) {
     let mut unresolve_info: HashMap<String, usize> = HashMap::new();
-    for (check_reason, unresolves) in reason_unresolves.iter() {
+    for (check_reason, unresolves) in reason_unresolves.map.iter() {
         for unresolve in unresolves {
             match unresolve {
                 UnResolve::Return(_) => {
@@ -160,16 +205,19 @@ fn record_unresolve_info(
 fn try_resolve(
     db: &mut DbIndex,
     infer_manager: &mut InferCacheManager,
-    reason_reasolve: &mut HashMap<InferFailReason, Vec<UnResolve>>,
+    reason_reasolve: &mut ReasonUnResolves,
 ) {
     loop {
         let mut changed = false;
         let mut to_be_remove = Vec::new();
         let mut retain_unresolve = Vec::new();
-        for (check_reason, unresolves) in reason_reasolve.iter_mut() {
-            if !check_reach_reason(db, infer_manager, check_reason).unwrap_or(false) {
+        for check_reason in reason_reasolve.reasons() {
+            if !check_reach_reason(db, infer_manager, &check_reason).unwrap_or(false) {
                 continue;
             }
+            let Some(unresolves) = reason_reasolve.get_mut(&check_reason) else {
+                continue;
+            };
 
             for mut unresolve in unresolves.drain(..) {
                 let file_id = unresolve.get_file_id().unwrap_or(FileId { id: 0 });
@@ -230,7 +278,7 @@ fn try_resolve(
                         }
                     }
                     Err(reason) => {
-                        if reason != *check_reason {
+                        if reason != check_reason {
                             changed = true;
                             retain_unresolve.push((unresolve, reason));
                         }
@@ -238,18 +286,13 @@ fn try_resolve(
                 }
             }
 
-            to_be_remove.push(check_reason.clone());
+            to_be_remove.push(check_reason);
         }
 
-        for reason in to_be_remove {
-            reason_reasolve.remove(&reason);
-        }
+        reason_reasolve.remove(&to_be_remove);
 
         for (unresolve, reason) in retain_unresolve {
-            reason_reasolve
-                .entry(reason.clone())
-                .or_default()
-                .push(unresolve);
+            reason_reasolve.push(reason, unresolve);
         }
 
         if !changed || reason_reasolve.is_empty() {
